@@ -102,8 +102,12 @@ h("C12", "c12", "c12_orient2d_fast_dyadic_g2", "thorough", 3000,
   "D=2 orientation (fast kernel) on the dyadic grids 2^-k*[-2,2]^2, k symbolic in 0..=20: exact sign where |det| >= 1e-10, "
   "DEGENERATE where det = 0 exactly, never the opposite sign inside the documented dead band", LU3)
 for nm, pt in [("origin", "(0,0,0)"), ("corner", "(1,-1,1)")]:
-    h("C12", "c12", f"c12_orient3d_fast_g1_cube_{nm}", "quick", 1500,
+    h("C12", "c12", f"c12_orient3d_fast_g1_cube_{nm}", "quick" if nm == "origin" else "thorough", 1500,
       f"D=3 orientation (fast kernel): first vertex fixed at {pt}, all 3^9 = 19683 triples of further points in {{-1,0,1}}^3", LU4)
+for form, edge in [("fast", "(0,0)-(1,0)"), ("lifted", "(0,0)-(0,1)"), ("robust1", "(0,0)-(1,0)")]:
+    h("C12", "c12", f"c12_insphere2d_{form}_g1_edge", "quick", 1200,
+      f"D=2 in-sphere ({form}): simplex edge fixed at {edge}, third vertex and query range over all 3^4 = 81 points of "
+      "{-1,0,1}^2 x {-1,0,1}^2: exact sign; degenerate => Err or BOUNDARY", LU4 + LU3)
 CUBE_PTS = ["(-1,-1)", "(-1,0)", "(-1,1)", "(0,-1)", "(0,0)", "(0,1)", "(1,-1)", "(1,0)", "(1,1)"]
 for form, tier, fns in [
         ("fast", "quick", ["geometry::kernel::FastKernel::in_sphere", "geometry::predicates::insphere", "geometry::predicates::simplex_orientation"]),
@@ -112,7 +116,9 @@ for form, tier, fns in [
                                  "geometry::robust_predicates::robust_orientation", "geometry::robust_predicates::interpret_insphere_determinant"])]:
     for c in range(9):
         # quick tier: the origin-fixed cube of every formulation plus one corner cube of the fast kernel
-        ctier = "quick" if (c == 4 or (form == "fast" and c == 0)) else "thorough"
+        # all nine cubes of every formulation are thorough (480-890 s each): the fresh-sandbox run of the quick
+        # tier is stopped after 900 s, so the quick tier uses the edge-fixed G=1 instances below instead
+        ctier = "thorough"
         h("C12", "c12", f"c12_insphere2d_{form}_g1_c{c}", ctier, 2400,
           f"D=2 in-sphere ({form}): first simplex vertex fixed at {CUBE_PTS[c]}, all 3^6 = 729 choices of the other two vertices and "
           "the query in {-1,0,1}^2: result = sign of the exact in-circle determinant relative to the exact orientation; exactly "
@@ -297,7 +303,12 @@ h("C19", "c19", "c19_grid_keys_unrestricted", "quick", 900,
   "no panic; non-finite coordinates are never keyed",
   ["core::delaunay_triangulation::quantize_coords", "core::collections::spatial_hash_grid::HashGridIndex::key_for_coords"],
   kani_args=NOFLOATCHK)
-h("C19", "c19", "c19_simplex_selection_short_inputs", "quick", 1800,
+h("C19", "c19", "c19_simplex_selection_too_few_inputs", "quick", 900,
+  "select_balanced_simplex_indices / reorder_vertices_for_simplex, D=2, input lengths 0, 1, 2 (fewer than D+1 vertices) with "
+  "UNRESTRICTED coordinates: None, no panic",
+  ["core::delaunay_triangulation::select_balanced_simplex_indices", "core::delaunay_triangulation::reorder_vertices_for_simplex"],
+  kani_args=NOFLOATCHK)
+h("C19", "c19", "c19_simplex_selection_short_inputs", "thorough", 3000,
   "select_balanced_simplex_indices / reorder_vertices_for_simplex, D=2, every input length 0..=3 with UNRESTRICTED "
   "coordinates: no panic; fewer than D+1 vertices => None",
   ["core::delaunay_triangulation::select_balanced_simplex_indices", "core::delaunay_triangulation::reorder_vertices_for_simplex"],
@@ -391,7 +402,7 @@ for nm, strat, tier, to in [("lex", "Lexicographic", "quick", 900), ("morton", "
           f"{strat} ordering on a CLUSTER: frame vertex (-2,2) plus two vertices with coordinates in {{0,1,2,3}}*2^-40 (same "
           f"Hilbert/Morton cell), D=2, input list with {gtxt}: identical ordered sequence (coordinates; vertices when the two "
           "cluster points differ)", ORD, mem_gb=(30 if nm == "hilbert" else 10))
-h("C14", "c14", "c14_order_deterministic_n3", "quick", 2400,
+h("C14", "c14", "c14_order_deterministic_n3", "thorough", 2400,
   "Input/Lexicographic ordering applied twice to the same n=3 input (D=2, coordinates in [-2,2]): identical sequences", ORD)
 PROP_ASSUMPTIONS["C14"] = [
     "kernel level only: equality of the BUILT triangulations, uniqueness of the Delaunay triangulation, hash-map iteration "
